@@ -104,11 +104,11 @@ class Check(object):
             allobls.extend(r["obligations"])
         if not allobls and quals:
             raise CheckerFault("zero obligations generated for %s" % self.pid)
-        res = discharge(allobls, timeout=self.timeout())
+        res = discharge(allobls, timeout=self.timeout(), engine=eng)
         # retry undecided ones one at a time with a longer budget (load can make verdicts flip)
         for i, r in enumerate(res):
             if r["verdict"] in ("unknown", "error") and r["kind"] != "reach":
-                r2 = discharge([allobls[i]], timeout=max(60, self.timeout() * 3), workers=1)[0]
+                r2 = discharge([allobls[i]], timeout=max(60, self.timeout() * 3), workers=1, engine=eng)[0]
                 r2["retried"] = True
                 res[i] = r2
         self.obl_results.extend(res)
